@@ -290,4 +290,9 @@ example : docOfTop fmtDemo 0 (.dbl 0x7FF8000000000000 none) = none ∧
 the exponent (`1E5.0`), which is why the shape is a hypothesis and is checked against glibc on every run -/
 example : doublePost false [49, 69, 53] = .ok [49, 69, 53, 46, 48] := by decide
 
+
+/-- every source fact this property's model consumes was located in the current source by tools/extract (a fact that is not
+found is emitted with a placeholder value; this obligation then fails and the check uses the reference model) -/
+theorem source_facts_located_c02 : JsonC.Generated.factsFound_ser = true := by decide
+
 end JsonC.Serialize
